@@ -37,6 +37,7 @@ def main(tier, replay=None):
         return runner.replay_file(chk, harness, replay, "FmtTrace", "FmtTrace_print.cfg", ())
     camp = runner.Campaign(chk, harness, "FmtTrace", "FmtTrace_print.cfg")
     camp.run([], fmtgen.print_execs(rng, quick), "formats")
+    camp.run([], fmtgen.matrix_execs(rng, quick), "matrix", sample=False)
     if hasan:
         env = {"ASAN_OPTIONS": "detect_stack_use_after_return=0:detect_leaks=0:abort_on_error=1"}
         ca = runner.Campaign(chk, hasan, "FmtTrace", "FmtTrace_print.cfg", env=env)
